@@ -1,5 +1,9 @@
 import EmsModel.Core.TriangulateGeom
 import EmsModel.Core.Proto
+import EmsModel.Core.TriFanSrc
+import EmsModel.Gen.TriFanSrc
+import EmsModel.Core.TriDatasetSrc
+import EmsModel.Gen.TriDatasetSrc
 /-! Line-protocol driver for C14 (triangulation).
 
 ring  : `x,y;x,y;…` (exact rationals `p/q`), closing vertex not repeated
@@ -16,8 +20,16 @@ cells : rings or `-` (no geometry) joined by `|`
 `prop <ring> <tris>` → `OK` | `FAIL:<clause>`: conclusions of the C14 theorems evaluated on a
                        triangle list (tris = `x,y;x,y;x,y` joined by `+`): count = n-2,
                        Σ signed area = shoelace area, Σ |area| = |shoelace area|
+`fanpipe <n> <L> <coords>` → `d0,d1,d2,d3:v,v,…` (shape and C-order values) | `ERR`: the term GENERATED FROM THE SOURCE of
+                       `_triangulate_polygons_by_length` (`Gen.triFanTriangles`) evaluated on `n` closed rings of `L`
+                       coordinates each (coords = the `n * L` rows `x,y` joined by `;`, closing coordinates included)
+`tdfaces <cells>`    → `total=<rows pre-allocated> blocks=<face>:<#triangles>,…` (in the order written) | `ERR`: the bookkeeping
+                       GENERATED FROM THE SOURCE of `triangulate_dataset` (`Gen.triDatasetLoops`, `Gen.triDatasetTotal`) run on
+                       the cells, hull test = `isStrictConvex`, ear test = `isEarExact`
 -/
-open Ems Ems.Proto Ems.Tri
+-- `Pt` is the vertex type of Core/Triangulate (`Ems.Tri.Pt`); Core/NpExpr (imported for `fanpipe`) also has an `Ems.Pt`
+open Ems hiding Pt
+open Ems.Proto Ems.Tri
 
 def parsePt? (s : String) : Option Pt :=
   match s.splitOn "," with
@@ -112,6 +124,32 @@ def step (line : String) : String :=
       else if sumAbsArea2 tris != absR (shoelace2 p) then "FAIL:absarea"
       else "OK"
     | _, _ => "BAD"
+  | ["fanpipe", ns, ls, cs] =>
+    match parseNat? ns, parseNat? ls, parseRing? cs with
+    | some n, some L, some pts =>
+      if pts.length != n * L then "BAD" else
+      match eval (triFanEnv (pts.map fun q => (q.x, q.y)) n L) Gen.triFanTriangles with
+      | some a =>
+        let vals := a.data.map fun v => match v with
+          | some r => showRat r
+          | none => "-"
+        s!"{joinWith "," (a.shape.map toString)}:{joinWith "," vals}"
+      | none => "ERR"
+    | _, _, _ => "BAD"
+  | ["tdfaces", cs] =>
+    match parseCells? cs with
+    | none => "BAD"
+    | some cells =>
+      -- number of hull coordinates: that of the cell where the exact test says strictly convex, fewer otherwise
+      let hull : List Pt → Nat := fun p => if isStrictConvex p then p.length + 1 else p.length
+      let env : TdEnv := ⟨cells, hull, isEarExact, []⟩
+      match tdRun env Gen.triDatasetLoops, tdEval env Gen.triDatasetTotal with
+      | some blocks, some (.nat total) =>
+        let parts := blocks.map fun b => match b.2 with
+          | .ok ts => s!"{b.1}:{ts.length}"
+          | .error _ => s!"{b.1}:ERR"
+        s!"total={total} blocks={joinWith "," parts}"
+      | _, _ => "ERR"
   | _ => "BAD"
 
 def main : IO Unit := loop step
